@@ -418,3 +418,135 @@ def _continuation_ob(name, middle, N1q, N2q, N1t, N2t):
 _continuation_ob("plain", [], 4, 4, 5, 5)
 _continuation_ob("blank-between", ["  "], 4, 3, 5, 4)
 _continuation_ob("comment-between", [" ! c"], 4, 3, 5, 4)
+
+
+# ---------------------------------------------------------------------------------------
+# O4: the parser's literal-masking loop (extracted from the current AST of FortranContainer.__init__)
+# ---------------------------------------------------------------------------------------
+def _masking_function():
+    """compile `def masking(self, line)` from the real loop: the `while` whose test searches QUOTES_RE, with the
+    initialisations that precede it"""
+    import ast
+    import inspect
+    import textwrap
+    import ford.sourceform as sf
+
+    src = textwrap.dedent(inspect.getsource(sf.FortranContainer.__init__))
+    fn = ast.parse(src).body[0]
+    loops = [n for n in fn.body if isinstance(n, ast.For) and ast.unparse(n.iter) == "source"]
+    if len(loops) != 1:
+        raise Inconclusive("cannot locate `for line in source`")
+    body = loops[0].body
+    idx = [i for i, n in enumerate(body) if isinstance(n, ast.While) and "QUOTES_RE.search" in ast.unparse(n.test)]
+    if len(idx) != 1:
+        raise Inconclusive("cannot locate the literal-masking loop")
+    i = idx[0]
+    pre = []
+    j = i - 1
+    while j >= 0 and isinstance(body[j], ast.Assign) and ast.unparse(body[j].targets[0]) in ("self.strings", "search_from"):
+        pre.insert(0, body[j])
+        j -= 1
+    if len(pre) < 2:
+        raise Inconclusive("masking loop initialisation not found")
+    stmts = pre + [body[i], ast.Return(value=ast.Tuple(elts=[ast.Name("line", ast.Load()), ast.Attribute(ast.Name("self", ast.Load()), "strings", ast.Load())], ctx=ast.Load()))]
+    f = ast.FunctionDef(name="masking", args=ast.arguments(posonlyargs=[], args=[ast.arg("self"), ast.arg("line")], kwonlyargs=[], kw_defaults=[], defaults=[]),
+                        body=stmts, decorator_list=[], type_params=[])
+    mod = ast.Module(body=[f], type_ignores=[])
+    ast.fix_missing_locations(mod)
+    text = ast.unparse(mod)
+    ns = {}
+    exec(compile(mod, "<masking loop of FortranContainer.__init__>", "exec"), sf.__dict__, ns)
+    return ns["masking"], text
+
+
+def _py_unmask(masked, strings):
+    out, pos = "", 0
+    for k, lit in enumerate(strings):
+        ph = f'"{k}"'
+        p = masked.find(ph, pos)
+        if p < 0:
+            return None
+        out += masked[pos:p] + lit
+        pos = p + len(ph)
+    return out + masked[pos:]
+
+
+def replay_masking(w):
+    import re as _re
+    import ford.sourceform as sf
+    from fv import standins
+
+    masking, _ = _masking_function()
+    try:
+        masked, strings = masking(standins.Rec(strings=None), w["line"])
+    except Exception as e:  # noqa
+        return True, {"line": w["line"], "ford": "raised " + repr(e)}
+    back = _py_unmask(masked, strings)
+    stray = _re.fullmatch(r"""([^'"]|"[0-9]+")*""", masked) is None
+    return back != w["line"] or stray, {"line": w["line"], "masked": masked, "strings": strings, "unmasked": back,
+                                        "stray_quote_in_masked_line": stray}
+
+
+@obligation("C02", "O4.literal-masking-loop", engine="SX+RXA", timeout=1800)
+def masking(ctx):
+    """the literal-masking loop of the parser: afterwards the line contains no literal text (only "<k>" placeholders) and putting
+    strings[k] back gives the original line — for every line <= N whose literals are terminated"""
+    import re as _re
+    import ford.sourceform as sf
+    from fv import standins, rxa
+
+    fn, text = _masking_function()
+    ctx.encode_text("literal-masking loop (FortranContainer.__init__)", text, "python-source")
+    ctx.encode_re("QUOTES_RE", sf.QUOTES_RE)
+    N = 6 if ctx.thorough else 5
+    alphabet = "'\"a0"
+    ctx.bounds.update({"N": N, "alphabet": alphabet})
+    ctx.assumptions.append("every literal of the line is terminated (lexical DFA ends outside a literal)")
+    ctx.assumptions.append("two literals of different quote kinds are never directly adjacent (not valid Fortran)")
+    clean = _re.compile(r"""^([^'"]|"[0-9]+")*$""")
+
+    def h(E):
+        masking_fn = fn  # its globals are the module's dict: it sees the patched names at call time
+        line = E.string("line", N, alphabet=alphabet)
+        E.e.snapshot = lambda m: {"line": E.model_value(m, line)}
+        st = O.lex_states(line)
+        E.assume(sym.mk_bool(O.state_at_len(line, st) == O.OUT))
+        # two character literals never touch in a Fortran statement (an operator or separator stands between them)
+        ch = line.chars
+        E.assume(sym.mk_bool(z3.And(*[z3.Not(z3.And(iv(i + 1) < line.len, st[i] != O.OUT, st[i + 1] == O.OUT,
+                                                    z3.Or(ch[i + 1] == 39, ch[i + 1] == 34), ch[i + 1] != ch[i])) for i in range(N - 1)])))
+        masked, strings = masking_fn(standins.Rec(strings=None), line)
+        E.reachable("masked")
+        if strings:
+            E.reachable("with-literals")
+        m_ = SymStr.lift(masked)
+        # (1) round trip
+        out, rest = SymStr.const(""), m_
+        for k, lit in enumerate(strings):
+            ph = f'"{k}"'
+            pos = rest.find_t(ph)
+            E.require(sym.mk_bool(pos != iv(-1)), f"placeholder {k} missing from the masked line")
+            out = out + rest.slice_t(iv(0), pos) + lit
+            rest = rest.slice_t(pos + len(ph), rest.len)
+        out = out + rest
+        E.require(sym.mk_bool(out.eq_t(line)), "putting the literals back does not give the original line")
+        # (2) no literal text left
+        mm = rxa.Matcher(rxa.prog_for(clean), m_.chars, m_.len)
+        ok, caps, end = mm.match()
+        E.require(sym.mk_bool(ok), "a quote character outside a placeholder survives masking")
+
+    with patch.patched(sf):
+        E = sym.Engine(ctx, max_paths=50000)
+        found = E.explore(h)
+        seen = set()
+        for (label, m, pc), snap in zip(found, E.snapshots):
+            if label in seen:
+                continue
+            seen.add(label)
+            ctx.report(label, snap, replay_masking)
+        for nm in ("masked", "with-literals"):
+            if E.reached.get(nm):
+                ctx.twins += 1
+            else:
+                ctx.inconclusive.append(f"vacuity: {nm}")
+    ctx.sample({"loop": text[:300], "paths": E.paths})
